@@ -272,6 +272,30 @@ Set(h, ty, v, unsafe) ==
     \/ /\ inited
        /\ LET r == SetResult(d, mem, h, ty, v, unsafe = 0)
           IN mem' = r[2] /\ UNCHANGED <<d, inited, touched>> /\ One("set", <<h, unsafe, ty>> \o Pad4(v), <<r[1]>> \o Image(r[2]))
+(* all 65536 values of a 16-bit register through set (ascending) followed by get: the accept set as maximal
+   intervals, and the number of values for which storage/read-back was not exact (adapter-side, must be 0) *)
+SetVerdict(t, m, h, ty, v, checked) ==      \* the code of SetResult without building the new storage
+    IF ~ValidH(t, h) THEN NOENTRY
+    ELSE LET r == t.regs[h + 1]
+         IN IF checked /\ (ty # r.ty \/ ~Satisfies(r, v, FALSE)) THEN REFUSED
+            ELSE IF t.areas[RegArea(t, r)].hasw = 0 THEN REFUSED
+            ELSE IF ~Decodes(r.ty, v) THEN REFUSED ELSE OK
+(* maximal intervals of accepted values, by one linear scan 0..65535: acc = [open, start, out] *)
+ScanStep(t, m, h, unsafe, acc, x) ==
+    LET ok == SetVerdict(t, m, h, t.regs[h + 1].ty, <<x>>, unsafe = 0) = OK
+    IN IF ok THEN (IF acc.open THEN acc ELSE [acc EXCEPT !.open = TRUE, !.start = x])
+       ELSE (IF acc.open THEN [open |-> FALSE, start |-> 0, out |-> acc.out \o <<acc.start, x - 1>>] ELSE acc)
+Intervals16(t, m, h, unsafe) ==
+    LET r == FoldLeft(LAMBDA acc, x : ScanStep(t, m, h, unsafe, acc, x), [open |-> FALSE, start |-> 0, out |-> <<>>],
+                      [i \in 1..65536 |-> i - 1])
+    IN IF r.open THEN r.out \o <<r.start, 65535>> ELSE r.out
+Sweep16With(h, unsafe, iv) ==
+    /\ mem' = IF iv = <<>> THEN mem ELSE StoreReg(d, mem, d.regs[h + 1], <<iv[Len(iv)]>>)
+    /\ UNCHANGED <<d, inited, touched>>
+    /\ One("sweep16", <<h, unsafe>>, <<Len(iv) \div 2>> \o iv \o <<0>>)
+Sweep16(h, unsafe) ==
+    /\ inited /\ ValidH(d, h) /\ Size(d.regs[h + 1].ty) = 1
+    /\ Sweep16With(h, unsafe, Intervals16(d, mem, h, unsafe))
 Get(h) ==
     \/ Uninit("get", <<h>>)
     \/ inited /\ UNCHANGED vars /\ One("get", <<h>>, GetResult(d, mem, h))
@@ -308,8 +332,10 @@ Corrupt(addr, w) == /\ inited /\ Mapped(d, addr) /\ mem' = SetWord(d, mem, addr,
 
 ---------------------------------------------------------------------------
 (* invariants and action properties (E0) *)
+\* (registers of areas that do not load defaults start from whatever the storage holds; the invariant is
+\*  claimed for the registers whose initial value initialisation established)
 ConstrainedOK(t, m) == \A j \in 1..NR(t) :
-    t.regs[j].ck \in {2, 3, 4, 5} => LET v == RegValue(t, m, t.regs[j]) IN Decodes(t.regs[j].ty, v) /\ Satisfies(t.regs[j], v, FALSE)
+    t.regs[j].ck \in {2, 3, 4, 5} /\ LoadsDefaults(t.areas[RegArea(t, t.regs[j])]) => LET v == RegValue(t, m, t.regs[j]) IN Decodes(t.regs[j].ty, v) /\ Satisfies(t.regs[j], v, FALSE)
 rc(e) == e.o[1]
 CheckedOp(e) == e.op \in {"set", "bitset", "bitclr", "bwrite", "sanitise"}
 RefusedUnchanged == [][CheckedOp(ev') /\ ev'.op # "sanitise" /\ rc(ev') # OK => mem' = mem /\ touched' = touched]_<<vars, ev>>
